@@ -50,6 +50,11 @@ type Case struct {
 	// SrvOpt: server-option class of socket lanes ("", conn-timeout-small,
 	// conn-timeout-large, prefix). PaceMs: the client pauses that long
 	// between its messages. Members: gzip member layout of the body.
+	// B64: grpc-web-text request encoding ("" whole body, per-frame).
+	// Poison: before this stream, a call on the same mux fails in
+	// decompression.
+	B64     string `json:"b64,omitempty"`
+	Poison  bool   `json:"after_failed_decompression,omitempty"`
 	SrvOpt  string `json:"server_opt,omitempty"`
 	PaceMs  int    `json:"pace_ms,omitempty"`
 	Members string `json:"gzip_members,omitempty"`
@@ -317,6 +322,26 @@ func (c *Case) expectation() expect {
 	return ex
 }
 
+// poisonCase is the call that precedes a Poison case: a gzip client stream
+// whose second message is damaged after the point where gzip has produced
+// all its output (checksum), so decompression fails late.
+func poisonCase(c *Case) *Case {
+	p := &Case{Lane: c.Lane, T: c.T, Codec: "gzip", Shape: "cs", Limit: c.Limit, Frag: c.Frag, SrvOpt: c.SrvOpt, Trunc: -1, Sched: "poison"}
+	good := mustMarshal(mkChunk(1, squashy(1, 40), ""))
+	bad := wire.Gzip(mustMarshal(mkChunk(2, squashy(2, 700), "stale bytes of the failed call")))
+	for i := len(bad) - 8; i < len(bad)-4; i++ {
+		bad[i] ^= 0xff // CRC-32
+	}
+	p.Msgs = [][]byte{good}
+	body := wire.Frame(wire.Gzip(good), true)
+	body = append(body, wire.Frame(bad, true)...)
+	if c.T == "grpc-web-text" {
+		body = b64(body)
+	}
+	p.Body = body
+	return p
+}
+
 // ------------------------------------------------------------ in-process
 
 // inprocRequest builds the server-side request of an in-process case.
@@ -347,6 +372,9 @@ func (c *Case) inprocRequest(id string) *http.Request {
 		}
 		return wire.GRPCRequest(full(c.method()), hdr, rd)
 	case "grpc-web", "grpc-web-text":
+		if c.Codec == "gzip" {
+			hdr.Set("Grpc-Encoding", "gzip")
+		}
 		return wire.NewRequest("POST", full(c.method()), "", hdr, rd, -1)
 	}
 	panic("transport " + c.T)
@@ -454,6 +482,15 @@ func (e *env) execInproc(c *Case) (vs []viol, outcome string) {
 	mux := e.muxes[c.Limit]
 	if mux == nil {
 		panic(fmt.Sprintf("no mux for limit %d", c.Limit))
+	}
+	if c.Poison {
+		for i := 0; i < 3; i++ {
+			p := poisonCase(c)
+			pid, _ := e.open(p.script())
+			wire.Serve(mux, p.inprocRequest(pid))
+			e.drop(pid)
+			e.r.Count("failed_decompression_calls", 1)
+		}
 	}
 	id, rc := e.open(c.script())
 	defer e.drop(id)
